@@ -56,7 +56,7 @@ def run(ctx):
         pick(lambda x: "aaa:\n" in x["text"] and x["doc"]["hs"][0][1]["k"] == "m", n_each) +
         pick(lambda x: "aaa:\n" in x["text"] and x["doc"]["hs"][0][1]["k"] == "s", n_each)))
     limit_docs = sorted(set(pick(lambda x: x["doc"]["body"] and "".join(x["doc"]["body"]), 2) + pick(lambda x: not x["doc"]["body"], 2)))
-    plan = {"edit_docs": edit_docs, "limit_docs": limit_docs, "alphabet": ALPHABET, "max_str_len": ctx.pick(2, 3),
+    plan = {"edit_docs": edit_docs, "limit_docs": limit_docs, "alphabet": ALPHABET, "max_str_len": ctx.pick(2, 4),
             "watchdog_ms": 20000}
     ppath, outp = os.path.join(d, "plan.json"), os.path.join(d, "out.ndjson")
     with open(ppath, "w") as f:
